@@ -469,6 +469,9 @@ class Pipeline(T2Case):
         ctx.prove("C09/window-values", deep_eq(it, o3[1], v), info="T(D[p:]) == T(stream at p)")
         ctx.prove("C09/window-sizes", deep_eq(it, sizes_of(o3[1]), sizes_of(v)), info="_sizes equal")
         ctx.prove("C09/window-end", ctx.eq(_norm(zint(p) + zint(s3.pos)), end), info="stream left at p + encoded size")
+        if T.size is not None:
+            # the encoded size of a fixed-size type is its declared size (pinned independently of the reader under test)
+            ctx.prove("C09/end==p+len(T)", ctx.eq(end, _norm(zint(p) + T.size)), info=f"len(T)={T.size}")
 
     # -- C02
     def fidelity(self, ctx, it, D, p, B, T):
@@ -652,6 +655,8 @@ def native_pipeline(prog, compiled, props, inputs):
             w = T._read(io.BytesIO(data[p:]))
             if not native_equiv(w, v) or dict(w._sizes) != dict(v._sizes):
                 bad.append(f"T(D[p:]) differs: {w!r} sizes {w._sizes} vs {v._sizes}"[:300])
+            if T.size is not None and consumed != T.size:
+                bad.append(f"stream left at p + {consumed}, len(T) = {T.size}")
         except Exception as e:  # noqa: BLE001
             bad.append(f"T(D[p:]) raises {type(e).__name__}")
     if props & {"C01", "C02", "C04"}:
